@@ -346,10 +346,35 @@ def check_hidden_required_kwargs(prog, run):
     run.count("functions_with_kwargs", n)
 
 
+def thorough_pairs(prog, run):
+    """every facade method called right after every other one on the same facade (each ordered pair, each command set
+    that offers both): all the rules of check_path apply to the second call"""
+    methods = facade_methods(prog)
+    scsi_cls = prog.cls(SCSI_MOD, "SCSI")
+    file = prog.rel(scsi_cls.module)
+    npairs = 0
+    for name, fspec in reffacade.FACADE.items():
+        if name not in methods:
+            continue
+        line = methods[name].node.lineno
+        for setname in sets_offering(prog, fspec):
+            sas = sorted(fspec["extra"]["by_service_action"]) if "by_service_action" in fspec["extra"] else [None]
+            for other, ospec in reffacade.FACADE.items():
+                if other == name or other not in methods or setname not in sets_offering(prog, ospec):
+                    continue
+                osas = sorted(ospec["extra"].get("by_service_action", {None: None}), key=lambda x: (x is None, x))
+                for fp in eval_facade(prog, name, fspec, setname, "none", sa=sas[-1], check_condition="never", after_all=True,
+                                      history=[(other, ospec, osas[-1])]):
+                    npairs += 1
+                    check_path(prog, run, fp, fspec, name, file, line)
+    run.count("ordered_pairs_of_facade_calls", npairs)
+
+
 def thorough(prog, run):
     """use sites: the arguments the shipped programs (tools/, examples/) pass to the facade must be accepted"""
     import glob
     import os
+    thorough_pairs(prog, run)
     methods = facade_methods(prog)
     nsites = 0
     for sub in ("tools", "examples"):
